@@ -25,7 +25,8 @@ def main():
 
     if os.environ.get('VF_FAULTHANDLER'):   # triage aid: kill -USR1 <pid> dumps all thread stacks to stderr
         import faulthandler, signal
-        faulthandler.register(signal.SIGUSR1, all_threads=True)
+        faulthandler.register(signal.SIGUSR1, file=open(os.path.join(os.environ['VF_FAULTHANDLER'], f'fh_{os.getpid()}.log'), 'w'),
+                              all_threads=True)
     cache_dir = tempfile.mkdtemp(prefix='vf_cache_')
     os.environ['XDG_CACHE_HOME'] = cache_dir
     os.environ.setdefault('NUMBA_CACHE_DIR', os.path.join(cache_dir, 'numba'))
